@@ -144,7 +144,7 @@ def instances(ck):
         add("cpls-2-8-2", "cpls", {"a": 2, "b": 8, "c": 2}, lambda c: cnfgen.CPLSFormula(2, 8, 2), nosat=True)
     # --- Pitfall ---------------------------------------------------------------
     from cnfgen.families.pitfall import PitfallFormula
-    shapes = [(2, 1, 2, 2, 2), (4, 2, 2, 2, 2), (4, 3, 3, 2, 2), (6, 3, 3, 2, 4)]
+    shapes = [(2, 1, 2, 2, 2), (4, 2, 2, 2, 2), (4, 3, 3, 2, 2), (6, 3, 3, 2, 4), (4, 2, 2, 1, 2), (4, 1, 1, 2, 2)]
     if not q:
         shapes += [(4, 1, 2, 3, 2), (5, 2, 4, 2, 2), (6, 2, 2, 2, 4), (8, 3, 5, 3, 2), (4, 3, 2, 4, 6)]
     for j, (v, d, ny, nz, k) in enumerate(shapes):
@@ -192,6 +192,29 @@ def keyf(rec, why):
     return None
 
 
+
+def demo_mutants(recs, verdicts):
+    """Corrupted copies of records judged ok (flip a literal, drop a clause, shift the declared count)."""
+    import copy
+    out = []
+    seen = set()
+    for r in recs:
+        if verdicts.get(r["id"]) != "ok" or r.get("cls") != "CNF" or r["outcome"] != "ok" or "cand" in r:
+            continue
+        if r["fam"] in seen or len(r.get("clauses", [])) < 2 or not r["clauses"][0] or r["nvars"] > 10:
+            continue
+        seen.add(r["fam"])
+        a = copy.deepcopy(r)
+        a["clauses"][0][0] = -a["clauses"][0][0]
+        out.append(("%s:flip_literal" % r["fam"], a))
+        b = copy.deepcopy(r)
+        b["clauses"] = b["clauses"][1:]
+        out.append(("%s:drop_clause" % r["fam"], b))
+        if len(seen) >= 6:
+            break
+    return out
+
+
 def main(argv=None):
     ck = common.Check("C03", argv)
     common.setup_repo_import()
@@ -205,7 +228,8 @@ def main(argv=None):
     ck.cover["instances_per_family"] = fams
     ck.count("exact_axiom_comparisons", sum(1 for r in recs if r["fam"] not in ("ram", "vdw", "ptn")))
     ck.count("assignments_evaluated", sum(2 ** r["nvars"] for r in recs if "cand" not in r))
-    ck.judge("JudgeFamilies", recs, cfg="Judge.cfg", weight=gen.weight, keyf=keyf, heap="4g")
+    verdicts = ck.judge("JudgeFamilies", recs, cfg="Judge.cfg", weight=gen.weight, keyf=keyf, heap="4g")
+    ck.binding_demo("JudgeFamilies", demo_mutants(recs, verdicts or {}), cfg="Judge.cfg")
     ck.assumptions += [
         "unsatisfiability is brute-forced only up to ~12 (quick) / 16-22 (thorough) variables; beyond that the check "
         "is that the implementation emits exactly the documented axioms (whose unsatisfiability is the textbook result)",
